@@ -23,10 +23,11 @@ def run(ctx):
     vertices, edges, cells, ne = (T.sym(p) for p in f.params[:4])
     gmparams = f.params
     # the list that is returned as the resampled interfaces
-    rets = [n for n in ast.walk(f.node) if isinstance(n, ast.Return) and isinstance(n.value, ast.Tuple)]
-    if len(rets) != 1 or len(rets[0].value.elts) != 4 or not isinstance(rets[0].value.elts[3], ast.Name):
-        raise AnalysisError("generate_mesh no longer returns (vertices, edges, cells, <interface list>) - re-bind the anchor")
-    arr_name = rets[0].value.elts[3].id
+    ret_gm = s.ret()
+    built = [x[1] for x in T.subterms(ret_gm[1][3]) if x[0] in ("loopres", "lc")] if ret_gm[0] == "seq" and len(ret_gm[1]) == 4 else []
+    if not built:
+        raise AnalysisError("generate_mesh no longer returns (vertices, edges, cells, <interface list built in the function>) - re-bind the anchor")
+    arr_name = built[0]
     apps = [e for e in s.events if e.kind == "call" and isinstance(e.fname, tuple) and e.fname[1] == "append"
             and isinstance(e.node.func.value, ast.Name) and e.node.func.value.id == arr_name]
     if len(apps) < 2:
